@@ -92,6 +92,7 @@ func (e *Engine) decodeInto(l *Loc, bz *T, path string, depth int) {
 		} else {
 			lo, hi := e.repeatedBound(path)
 			lenUF := UF("declen"+path, IntS, bz)
+			e.note(fmt.Sprintf("decoded repeated field %s bounded to %d..%d elements", path, lo, hi))
 			k := e.choose(hi-lo+1, func(i int) *T { return Eq(lenUF, IntConst(int64(lo+i))) })
 			n = lo + k
 		}
@@ -280,6 +281,10 @@ func init() {
 		bz := toSeq(a[0])
 		e.decodeInto(p.L, bz, "_"+shortType(p.L.T), 0)
 		// log the decoded leaves so a counterexample can be rebuilt with the real codec
+		// (values produced by Encode on this path are rebuilt natively by the same setters, so they are not logged)
+		if e.encInfo[bz] != nil {
+			return nil
+		}
 		var leaves, lens []encLeaf
 		e.collectLeaves(load(p.L), p.L.T, "_"+shortType(p.L.T), &leaves, &lens, 0)
 		for _, l := range lens {
